@@ -23,6 +23,44 @@ type Mutant struct {
 	New    string `json:"new"`
 	Expect string `json:"expect,omitempty"` // rule id expected to fire (prefix)
 	Note   string `json:"note,omitempty"`
+	// Edits: further (or, with File empty, all) replacements; used for multi-hunk changes
+	// such as the seeded regressions kept under /verif/seeded.
+	Edits []Edit `json:"edits,omitempty"`
+}
+
+// Edit is one text replacement in one file.
+type Edit struct {
+	File string `json:"file"`
+	Old  string `json:"old"`
+	New  string `json:"new"`
+}
+
+// overlay builds the overlay of a mutant; msg is non-empty when it does not apply.
+func (m Mutant) overlay(repo string) (map[string][]byte, string) {
+	edits := m.Edits
+	if m.File != "" {
+		edits = append([]Edit{{m.File, m.Old, m.New}}, edits...)
+	}
+	out := map[string][]byte{}
+	for _, e := range edits {
+		path := filepath.Join(repo, e.File)
+		src, ok := out[path]
+		if !ok {
+			b, err := os.ReadFile(path)
+			if err != nil {
+				return nil, err.Error()
+			}
+			src = b
+		}
+		if n := strings.Count(string(src), e.Old); n != 1 {
+			return nil, fmt.Sprintf("anchor text occurs %d times in %s", n, e.File)
+		}
+		out[path] = []byte(strings.Replace(string(src), e.Old, e.New, 1))
+	}
+	if len(out) == 0 {
+		return nil, "mutant has no edits"
+	}
+	return out, ""
 }
 
 // LoadMutants reads mutants/<id>.json.
@@ -51,16 +89,11 @@ type MutantResult struct {
 
 // RunMutant applies m to repo through an overlay and runs property id.
 func RunMutant(repo, id string, m Mutant) MutantResult {
-	path := filepath.Join(repo, m.File)
-	src, err := os.ReadFile(path)
-	if err != nil {
-		return MutantResult{Name: m.Name, Status: "skipped", Detail: err.Error()}
+	ov, msg := m.overlay(repo)
+	if msg != "" {
+		return MutantResult{Name: m.Name, Status: "skipped", Detail: msg}
 	}
-	if strings.Count(string(src), m.Old) != 1 {
-		return MutantResult{Name: m.Name, Status: "skipped", Detail: fmt.Sprintf("anchor text occurs %d times in %s", strings.Count(string(src), m.Old), m.File)}
-	}
-	mutated := strings.Replace(string(src), m.Old, m.New, 1)
-	prog, err := kit.Load(kit.LoadOptions{Dir: repo, Overlay: map[string][]byte{path: []byte(mutated)}})
+	prog, err := kit.Load(kit.LoadOptions{Dir: repo, Overlay: ov})
 	if err != nil {
 		return MutantResult{Name: m.Name, Status: "broken", Detail: "mutant does not type-check: " + err.Error()}
 	}
@@ -92,16 +125,11 @@ func RunMutant(repo, id string, m Mutant) MutantResult {
 // program; returns the non-discharged reports per property, or a status if the
 // mutant could not be applied / does not type-check.
 func RunMutantAll(repo string, ids []string, m Mutant) (map[string][]string, string) {
-	path := filepath.Join(repo, m.File)
-	src, err := os.ReadFile(path)
-	if err != nil {
-		return nil, "skipped " + err.Error()
+	ov, msg := m.overlay(repo)
+	if msg != "" {
+		return nil, "skipped: " + msg
 	}
-	if strings.Count(string(src), m.Old) != 1 {
-		return nil, fmt.Sprintf("skipped: anchor text occurs %d times in %s", strings.Count(string(src), m.Old), m.File)
-	}
-	mutated := strings.Replace(string(src), m.Old, m.New, 1)
-	prog, err := kit.Load(kit.LoadOptions{Dir: repo, Overlay: map[string][]byte{path: []byte(mutated)}})
+	prog, err := kit.Load(kit.LoadOptions{Dir: repo, Overlay: ov})
 	if err != nil {
 		return nil, "broken: " + err.Error()
 	}
